@@ -22,7 +22,8 @@ def _groups():
         t = open(f).read()
         app = re.search(r'//@append (\S+)', t).group(1)
         cov = re.search(r'//@covers (.*)', t).group(1).split()
-        out.append(dict(file=f, append=app, covers=cov, body=t))
+        shim = re.search(r'//@shim (\S+)', t)
+        out.append(dict(file=f, append=app, covers=cov, body=t, shim=shim.group(1) if shim else None))
     return out
 
 
@@ -52,6 +53,15 @@ def run_group(g):
         with open(os.path.join(d, g['append']), 'a') as fh:
             fh.write('\n' + g['body'])
         env = dict(os.environ, CARGO_NET_OFFLINE='true', CARGO_TARGET_DIR=os.path.join(VERIF, '.cache', 'cex-target'))
+        pre = None
+        if g.get('shim'):
+            # fault-injection / tracing shim: built here, preloaded into the test binary only
+            so = os.path.join(d, 'ioshim.so')
+            subprocess.run(['clang', '-shared', '-fPIC', '-O1', '-o', so, os.path.join(VERIF, g['shim']), '-ldl'], check=True, capture_output=True)
+            subprocess.run(['cargo', 'test', '--offline', '--lib', '--no-run'], cwd=d, env=env, capture_output=True, text=True, timeout=900)
+            open(os.path.join(d, 'io.log'), 'w').close()
+            open(os.path.join(d, 'io.ctl'), 'w').write('-1')
+            env = dict(env, IOSHIM_LOG=os.path.join(d, 'io.log'), IOSHIM_CTL=os.path.join(d, 'io.ctl'), IOSHIM_MATCH='.verifdb', LD_PRELOAD=so)
         cmd = ['cargo', 'test', '--offline', '--lib', 'verif_cex_', '--', '--nocapture', '--test-threads', '1']
         try:
             p = subprocess.run(cmd, cwd=d, env=env, capture_output=True, text=True, timeout=900)
